@@ -410,6 +410,16 @@ pub enum InherentImplKey {
     Constr(String),
 }
 
+impl InherentImplKey {
+    /// `impl <type>::<method>`: no function can be called that
+    pub fn method_bounds_name(&self, method: &str) -> String {
+        match self {
+            InherentImplKey::Exact(ty) => format!("impl {:?}::{}", ty, method),
+            InherentImplKey::Constr(name) => format!("impl {}::{}", name, method),
+        }
+    }
+}
+
 impl TraitEnv {
     pub fn new() -> Self {
         Self {
@@ -445,6 +455,33 @@ impl TraitEnv {
             .get(&key)
             .and_then(|impl_def| impl_def.methods.get(&func_name.0))
             .map(|scheme| scheme.ty.clone())
+    }
+
+    /// The name under which `fn_bounds` keeps the trait bounds of the own type parameters of the
+    /// inherent method that `lookup_inherent_method` finds for this receiver.
+    pub fn inherent_method_bounds_name(
+        &self,
+        receiver_ty: &tast::Ty,
+        method: &TastIdent,
+    ) -> Option<String> {
+        let exact = InherentImplKey::Exact(receiver_ty.clone());
+        if self
+            .inherent_impls
+            .get(&exact)
+            .is_some_and(|impl_def| impl_def.methods.contains_key(&method.0))
+        {
+            return Some(exact.method_bounds_name(&method.0));
+        }
+        let constr = match receiver_ty {
+            tast::Ty::TEnum { name } | tast::Ty::TStruct { name } => Some(name.clone()),
+            tast::Ty::TApp { ty, .. } => ty.try_constr_name(),
+            _ => None,
+        }?;
+        let key = InherentImplKey::Constr(constr);
+        self.inherent_impls
+            .get(&key)
+            .is_some_and(|impl_def| impl_def.methods.contains_key(&method.0))
+            .then(|| key.method_bounds_name(&method.0))
     }
 
     pub fn lookup_inherent_method(
